@@ -64,6 +64,10 @@ pub struct PubCfg {
     pub max_slice_len: Option<usize>,
     /// 0 static, 1 best fit, 2 power of two
     pub alloc: Option<u8>,
+    /// set the backpressure strategy to DiscardData explicitly (it is the default of the domains
+    /// the programs run in: a single-threaded program must never block in send)
+    #[serde(default)]
+    pub discard: bool,
 }
 
 #[derive(Clone, Debug, Serialize, Deserialize, PartialEq)]
